@@ -3,7 +3,7 @@
 import os, re, subprocess, sys
 V = os.path.dirname(os.path.dirname(os.path.abspath(__file__)))
 p = os.path.join(V, 'DESIGN.md'); s = open(p).read()
-for tag, tool in (('findings', 'mkfindings.py'), ('seeded', 'mktable.py')):
+for tag, tool in (('findings', 'mkfindings.py'), ('seeded', 'mktable.py'), ('status', 'mkstatus.py')):
     out = subprocess.run([sys.executable, os.path.join(V, 'tools', tool)], capture_output=True, text=True).stdout
     s = re.sub(r'<!-- BEGIN:%s -->.*?<!-- END:%s -->' % (tag, tag), lambda m: '<!-- BEGIN:%s -->\n%s<!-- END:%s -->' % (tag, out, tag), s, flags=re.S)
 open(p, 'w').write(s)
